@@ -712,6 +712,7 @@ class Engine:
             p = q_val(prev)
             delta = q_val(abs(prev) * Fraction(1, 10 ** 20) + Fraction(1, 10 ** 28))
             tries.append(grid + [z != p, z - p <= delta, p - z <= delta])
+        tries.append([z >= 2 ** 70, z3.Not(z3.IsInt(z)), z3.IsInt(z * 2)])          # huge half-integers (int / 2 of a huge odd int)
         tries.append(grid + [z == q_val(Fraction(3000000000000000000007, 10 ** 22))])
         tries.append(grid + [z != 0])
         tries.append([])
